@@ -1040,12 +1040,53 @@ func c13GenTags(r *Rng, plain bool) (map[B]B, int) {
 	case x == 1:
 		return nil, 2
 	}
-	n := r.Range(1, 4)
 	m := map[B]B{}
+	if r.Chance(12) {
+		// "all tag sets": sizes around and beyond the capacity of the reporter's pooled tag slices
+		n := c13ManyTags[r.Intn(len(c13ManyTags))]
+		for i := 0; i < n; i++ {
+			m[B(fmt.Sprintf("t%02d", i)+pool[r.Intn(len(pool))])] = B(pool[r.Intn(len(pool))])
+		}
+		return m, 0
+	}
+	n := r.Range(1, 4)
 	for i := 0; i < n; i++ {
 		m[B(pool[r.Intn(len(pool))])] = B(pool[r.Intn(len(pool))])
 	}
 	return m, 0
+}
+
+// tag-set sizes around the capacity of the pooled tag slices (batchPoolSize = 10) and well beyond
+var c13ManyTags = []int{9, 10, 11, 12, 13, 17, 25, 40}
+
+func c13NTags(prefix string, n int) map[B]B {
+	m := map[B]B{}
+	for i := 0; i < n; i++ {
+		m[B(fmt.Sprintf("%s%02d", prefix, i))] = B(fmt.Sprintf("v%d", i))
+	}
+	return m
+}
+
+// a metric with n tags, then metrics with other, not yet converted tag sets
+// (small, and large again), then a report through every handle: each must
+// carry the tags it was allocated with
+func c13DirectedSizes() []c13Case {
+	var out []c13Case
+	for k, n := range c13ManyTags {
+		c := c13Case{Kind: "exact", Proto: []string{"compact", "binary"}[k%2], Dests: 1, Queue: []int{4096, 1, 2}[k%3],
+			Service: "svc", Env: "test", Producers: 1}
+		c.Ops = []c13Op{
+			{Op: "alloc", K: 1 + k%3, Name: "many", Tags: c13NTags("t", n)},
+			{Op: "alloc", K: 1 + (k+1)%3, Name: "few", Tags: map[B]B{"other": "x", "k": "v"}},
+			{Op: "hist", Name: "h", Tags: c13NTags("h", n+1), B: []int64{1000, 2000}, Dur: true},
+			{Op: "alloc", K: 1, Name: "many2", Tags: c13NTags("u", n)},
+			{Op: "alloc", K: 2, Name: "again", Tags: c13NTags("t", n)},
+			{Op: "rep", H: 0, V: 1}, {Op: "rep", H: 1, V: 2}, {Op: "samp", H: 2, Ub: 1500, Dur: true, V: 3},
+			{Op: "rep", H: 3, V: 4}, {Op: "rep", H: 4, V: fbits(5)}, {Op: "flush"}, {Op: "rep", H: 0, V: 6},
+		}
+		out = append(out, c)
+	}
+	return out
 }
 
 // the colliding families: every map of a family has the same "k=v" strings
@@ -1467,6 +1508,10 @@ func init() {
 				c := c
 				one(&c, false)
 			}
+		}
+		for _, c := range c13DirectedSizes() {
+			c := c
+			one(&c, false)
 		}
 		// shared handles: small histories through the model, large ones by the direct predicate only
 		for i, ns := 0, ctx.N(14, 150); i < ns; i++ {
